@@ -42,7 +42,7 @@ const allPointsUpTo = 4096
 
 var checker = &vk.Checker[Case]{
 	ID: "C07",
-	Rule: "frames from C06's generator (all message kinds, versions, payload lengths): for EVERY cut point 0<=k<L (all k when L<=4096, else {0,1,31,32,33,L-1} and 256 keyed points) x reader {whole, 1-byte}: Unmarshal never succeeds, n == k == bytes handed out, cause io.EOF for k=0, io.ErrUnexpectedEOF otherwise (either for k=32), ReadHeader likewise for k<32; " +
+	Rule: "frames from C06's generator (all message kinds, versions, payload lengths): for EVERY cut point 0<=k<L (all k when L<=4096, else {0,1,31,32,33,L-1}, 256 keyed points and every multiple j*2^k (k>=9, j<=8) counted from the frame and from the body start, +-1; the grid holds a 3 MiB frame) x reader {whole, 1-byte}: Unmarshal never succeeds, n == k == bytes handed out, cause io.EOF for k=0, io.ErrUnexpectedEOF otherwise (either for k=32), ReadHeader likewise for k<32; " +
 		"for EVERY writer failure point k<L (a writer that accepts exactly k bytes, then returns a short count with an injected error): Marshal returns (k, that error) and the sink holds exactly the first k bytes; for EVERY reader error point k<=L (sticky non-EOF error delivered with or after the last good byte): n == k and the injected cause when k<L, success at k=L; " +
 		"corrupt headers: header-size field any uint64 != 32 -> ErrInvalidHeaderSize, n == 32, exactly 32 bytes consumed, version reported; body-size field in {fits, remaining+1, 2^31, 2^32, 2^36, 2^40, 2^47, 2^48, 2^62, 2^63, 2^64-1, random} -> returns normally (no panic, no process death: the case is on disk while it runs), 0<=n<=len, n == consumed, success only when a complete frame is present; arbitrary bytes into Unmarshal/ReadHeader likewise. " +
 		"Non-trivial: a frame with a body (points strictly inside the body exist), a corrupted size field, or arbitrary input >= 32 bytes. Distinct by hash of the case; coverage.fault_points counts the enumerated (frame, point) pairs.",
@@ -62,7 +62,7 @@ func isCause(err, want error) bool {
 	return err != nil && (cause(err) == want || errors.Is(err, want))
 }
 
-func points(L int, key uint64, inclusiveEnd bool) []int {
+func points(L int, key uint64, inclusiveEnd bool, minK uint) []int {
 	end := L
 	if inclusiveEnd {
 		end = L + 1
@@ -81,6 +81,20 @@ func points(L int, key uint64, inclusiveEnd bool) []int {
 	for i := 0; i < 256; i++ {
 		ps = append(ps, int(vk.Mix(key+uint64(i))%uint64(end)))
 	}
+	// positions where an implementation that moves the body in pieces would switch pieces:
+	// multiples of every power of two from 512 up, counted from the start of the frame and from
+	// the start of the body, each with its two neighbours
+	for k := minK; k < 31; k++ {
+		for j := 1; j <= 8; j++ {
+			for _, base := range []int{0, 32} {
+				for d := -1; d <= 1; d++ {
+					if p := base + j<<k + d; p > 0 && p < end {
+						ps = append(ps, p)
+					}
+				}
+			}
+		}
+	}
 	return ps
 }
 
@@ -90,12 +104,20 @@ func checkFrame(c Case) *vk.Failure {
 	L := len(F)
 	desc := fmt.Sprintf("frame(%s, %d payload bytes, ver %q, L=%d)", f.Kind, len(f.Payload), f.WantVersion(), L)
 	nPoints := int64(0)
+	bigK := uint(9)
+	if L > 1<<20 {
+		bigK = 18 // writer/reader fault points of multi-MiB frames: only the coarse piece boundaries
+	}
 
 	// (a) every cut point
-	for _, mode := range []string{"whole", "one"} {
-		for _, k := range points(L, uint64(c.PointKey), false) {
+	modes := []string{"whole", "one"}
+	if L > 1<<17 {
+		modes = []string{"whole", "sizes"} // 1-byte reads over megabytes only cost time
+	}
+	for _, mode := range modes {
+		for _, k := range points(L, uint64(c.PointKey), false, 9) {
 			nPoints++
-			r := pbm.NewChunkReader(F[:k], mode, nil)
+			r := pbm.NewChunkReader(F[:k], mode, []int{4096, 7, 65536, 1 << 20})
 			var n int64
 			var err error
 			if fl := vk.TryF(func() string { return fmt.Sprintf("%s cut at %d (%s reader): Unmarshal", desc, k, mode) }, func() { n, _, err = pbcmpl.Unmarshal(r, f.Fresh()) }); fl != nil {
@@ -134,7 +156,7 @@ func checkFrame(c Case) *vk.Failure {
 	}
 
 	// (b) every writer failure point
-	for _, k := range points(L, uint64(c.PointKey)+7, false) {
+	for _, k := range points(L, uint64(c.PointKey)+7, false, bigK) {
 		nPoints++
 		w := &pbm.LimitWriter{Limit: k}
 		var n int64
@@ -155,7 +177,7 @@ func checkFrame(c Case) *vk.Failure {
 
 	// (c) every reader error point
 	for _, with := range []bool{true, false} {
-		for _, k := range points(L, uint64(c.PointKey)+13, true) {
+		for _, k := range points(L, uint64(c.PointKey)+13, true, bigK) {
 			nPoints++
 			r := pbm.NewChunkReader(F, "sizes", []int{5, 32, 1, 100})
 			r.ErrAt, r.ErrWith, r.Err = k, with, pbm.ErrInjected
@@ -486,5 +508,14 @@ func TestGrid(t *testing.T) {
 				checker.Run(t, Case{Op: "frame", Frame: &f, Class: "grid"})
 			}
 		}
+	}
+	// one frame of several MiB: its fault points include every power-of-two multiple (piece boundaries)
+	big := make([]byte, 3<<20+4096+17)
+	for i := range big {
+		big[i] = byte(vk.Mix(uint64(i/8)) >> (8 * uint(i%8)))
+	}
+	for _, kind := range []string{"raw"} {
+		f := pbm.FrameJ{Kind: kind, Payload: big}
+		checker.Run(t, Case{Op: "frame", Frame: &f, PointKey: 99, Class: "grid-multi-MiB"})
 	}
 }
